@@ -965,7 +965,7 @@ def plan(prop, tier, seed, known):
             jobs.append({"name": "concmany%d" % i, "kind": "lin", "also": ["C10"],
                          "driver": ["conc", "-seed", str(seed * 100 + 60 + i), "-segs", "3" if q else "6", "-steps", "8", "-clients", str(2 + i % 2),
                                     "-avoid", av, "-many", "130"]})
-        jobs += design_jobs("Icache", ["Icache"], [], [("Icache_nodrop", "Coherent"), ("Icache_nowrite", "Coherent")], q)
+        jobs += design_jobs("Icache", ["Icache"], [], [("Icache_nodrop", "Coherent"), ("Icache_nowrite", "Coherent"), ("Icache_lookupfirst", "OneCopy")], q)
         # the per-directory name cache and the slot choice that depends on it
         jobs += design_jobs("DirCache", ["DirCache"], ["DirCache_big"], [("DirCache_keep", "Coherent"), ("DirCache_nodel", "Coherent")], q)
     elif prop == "C09":
@@ -1053,6 +1053,12 @@ def plan(prop, tier, seed, known):
             jobs.append({"name": "lin%d" % i, "kind": "lin",
                          "driver": ["conc", "-seed", str(seed * 100 + 40 + i), "-segs", "10" if q else "40", "-steps", "10",
                                     "-clients", str(3 + i % 2), "-avoid", av]})
+        # several clients truncating and re-extending the same large sparse file: shrinker threads pile up behind the
+        # inode lock that the requests which start them hold
+        for i in range(2 if q else 12):
+            jobs.append({"name": "storm%d" % i, "kind": "lin", "also": ["C06"],
+                         "driver": ["conc", "-seed", str(seed * 100 + 70 + i), "-segs", "4" if q else "10", "-steps", "10",
+                                    "-clients", str(3 + i % 3), "-avoid", av, "-storm"]})
         jobs.append(probe_job(prop, av))
         jobs += fsproto_jobs(q, "C06")
         jobs += protoreplay_jobs(q, seed, ["C06"])
